@@ -275,8 +275,56 @@ def r_alias(prog, R):
     r.info["sizeof_sites"] = n
 
 
+def r_ndots(prog, R):
+    r = R.rule("R-C12-NDOTS", "the ndots threshold that orders the candidates is taken from configuration for every legal value, including 0", floor=3, analysis="exact guard (guard_delta) on the stores of channel->ndots")
+    # system configuration: guarded by the user's option bit and nothing else (0 is a legal value: 'try the name as-is first, always')
+    f = prog.func("ares_sysconfig_apply")
+    mf = MustFacts(f, track_calls=False)
+    st = [(b, i, el) for b, i, el in f.elements() if el["k"] == "asg" and is_field(el["e"]["l"], "ndots", "ares_channeldata")]
+    if r.require(len(st) == 1, "ares_sysconfig_apply: store of channel->ndots not found"):
+        b, i, el = st[0]
+        extra = []
+        for c3, p3 in mf.cond_facts_at(b, i):
+            t = render(c3)
+            if "optmask" in t and "ARES_OPT_NDOTS" in " ".join(m for n in walk(c3) for m in ([n.get("mac")] if isinstance(n.get("mac"), str) else (n.get("mac") or []))):
+                continue
+            extra.append(("" if p3 else "!") + t)
+        if extra:
+            r.viol("sysconfig ndots applied for every value", f.name, f.loc(el), "channel->ndots is taken from the system configuration only when %s: 'options ndots:0' (a legal value) is ignored and a dot-less name is tried after the search domains instead of first" % extra)
+        else:
+            r.ok("sysconfig ndots applied for every value", f.loc(el))
+    # options: negative is refused, 0 accepted
+    g = prog.func("ares_init_by_options")
+    mg = MustFacts(g, track_calls=False)
+    st = [(b, i, el) for b, i, el in g.elements() if el["k"] == "asg" and is_field(el["e"]["l"], "ndots", "ares_channeldata")]
+    if r.require(len(st) == 1, "ares_init_by_options: store of channel->ndots not found"):
+        b, i, el = st[0]
+        bad = None
+        for c3, p3 in mg.cond_facts_at(b, i):
+            op, l3, r3 = norm_cmp(c3, p3)
+            if r3 is not None and "ndots" in render(l3) and "options" in render(l3):
+                v = const_val(r3)
+                # the store must be reachable for ndots == 0: facts of the form ndots >= 0 / !(ndots < 0) are fine
+                if (op == ">" and v == 0) or (op == ">=" and v is not None and v >= 1) or (op == "!=" and v == 0) or op == "truth":
+                    bad = render(c3)
+            elif op == "truth" and "ndots" in render(l3) and "options" in render(l3):
+                bad = render(c3)
+        if bad:
+            r.viol("option ndots 0 accepted", g.name, g.loc(el), "ARES_OPT_NDOTS with ndots = 0 is not stored (guard '%s')" % bad)
+        else:
+            r.ok("option ndots 0 accepted", g.loc(el))
+    # the comparison that uses it is `ndots >= channel->ndots` (checked by R-C12-ORDER); the default is 1
+    d = prog.func("ares_init_by_sysconfig")
+    dv = [el for _, _, el in d.elements() if el["k"] == "asg" and render(strip(el["e"]["l"])).endswith("ndots") and const_val(el["e"].get("r")) is not None]
+    if dv and const_val(dv[0]["e"]["r"]) == 1:
+        r.ok("default ndots is 1", d.loc(dv[0]))
+    else:
+        r.viol("default ndots is 1", d.name, d.loc(d.ln), "the default ndots threshold is no longer 1")
+
+
 def run(prog, R, tier):
     R.assume("ares_cat_domain concatenates name '.' domain; ares_name_label_cnt counts labels (string construction not decided)")
     r_order(prog, R)
     r_stop(prog, R)
     r_alias(prog, R)
+    r_ndots(prog, R)
